@@ -63,7 +63,7 @@ func init() {
 		ID: "C01",
 		Rule: "stateful rapid histories of the restaking world machine over the real app (deposit/withdraw/delegate/undelegate/associate/opt/slash/NST/native/blocks); " +
 			"non-trivial = history with a successful delegation, a successful undelegation, a completed undelegation and a value-removing slash or NST decrease; distinct = hash of the (kind, outcome) sequence",
-		Gen:        GenOpts{HostilePct: 12, ExtremePct: 3, MaxDt: 40, Anchor: true, Tempos: []int{4, 12, 40}},
+		Gen:        GenOpts{HostilePct: 12, ExtremePct: 3, MaxDt: 40, Anchor: true, Focus: true, Tempos: []int{4, 12, 40}},
 		MinSteps:   15,
 		MaxSteps:   60,
 		Config:     worldConfig,
@@ -76,3 +76,16 @@ func init() {
 }
 
 func TestC01(t *testing.T) { runWorldProp(t, "C01") }
+
+// the same oracle over histories concentrated on the native-restaking (NST) ledger: deposits,
+// delegations, several pending undelegations and balance adjustments of one asset
+func init() {
+	w := map[string]int{"nextBlock": 10, "depositNST": 8, "withdrawNST": 3, "delegate": 12, "undelegate": 14, "nstUpdate": 14, "slash": 2, "associate": 1, "dissociate": 1}
+	base := *worldProps["C01"]
+	base.Name = "C01NST"
+	base.Gen = GenOpts{Weights: w, HostilePct: 4, ExtremePct: 0, Anchor: true, Tempos: []int{2, 6, 20}, ForceFocus: 3, FocusPct: 92, CapBits: 90}
+	base.MinSteps, base.MaxSteps = 20, 60
+	registerWorldProp(&base)
+}
+
+func TestC01NST(t *testing.T) { runWorldProp(t, "C01NST") }
